@@ -388,6 +388,7 @@ func rulesC13(w *World, r *Report) {
 
 	// R5: a value writer cannot succeed without writing
 	w.ruleAlwaysWrites(r, "C13.R5 value writers write or fail")
+	w.ruleValuesPerIteration(r, "C13.R5 every element iteration writes")
 
 	// R4: header count = loop bound (list writer)
 	w.ruleListCount(r, "C13.R4 declared count = elements written")
@@ -405,7 +406,13 @@ func (w *World) ruleAlwaysWrites(r *Report, rule string) {
 	var fns []*ssa.Function
 	for _, fn := range w.SrcFuncs() {
 		if closure[fn] && errIndex(fn.Signature) >= 0 && fn.Signature.Recv() != nil && namedIs(fn.Signature.Recv().Type(), hessianPath, "Encoder") {
-			fns = append(fns, fn)
+			// the functions that stand for one value each: the value dispatch, the
+			// container and scalar writers, the byte writers.  Extracted helpers (an
+			// element loop may legitimately write nothing for an empty container)
+			// are covered by the per-iteration rule of C02.R2 instead.
+			if _, isRole := w.writerBoundaries()[fn]; isRole {
+				fns = append(fns, fn)
+			}
 		}
 	}
 	aw := map[*ssa.Function]bool{}
@@ -476,7 +483,7 @@ func (w *World) ruleAlwaysWrites(r *Report, rule string) {
 		}
 		r.add(rule, fnName(fn), w.pos(fn.Pos()), aw[fn], fact)
 	}
-	r.floor(rule, len(fns), 15)
+	r.floor(rule, len(fns), 10)
 }
 
 func fnNames(fs []*ssa.Function) []string {
@@ -531,51 +538,3 @@ func (w *World) guardedByCanInterface(field *ssa.Call, use *ssa.Call) (bool, str
 	return false, "Interface() on a struct field without a dominating CanInterface() test: panics for an unexported field"
 }
 
-// ruleListCount: in the list writer the int written after the fixed-length
-// header tags is the same term as the bound of the element loop.
-func (w *World) ruleListCount(r *Report, rule string) {
-	fn := w.fn("(*Encoder).writeList")
-	if fn == nil {
-		r.undecided(rule, "(*Encoder).writeList", "-", "anchor function not found")
-		return
-	}
-	f := w.flow(fn)
-	// loop bound: comparison `i < X` controlling a loop that calls WriteData
-	var bounds []string
-	for _, b := range fn.Blocks {
-		iff, ok := b.Instrs[len(b.Instrs)-1].(*ssa.If)
-		if !ok {
-			continue
-		}
-		bo, ok := iff.Cond.(*ssa.BinOp)
-		if !ok || bo.Op != token.LSS {
-			continue
-		}
-		if _, isPhi := bo.X.(*ssa.Phi); !isPhi {
-			continue
-		}
-		bounds = append(bounds, f.term(bo.Y).Key())
-	}
-	n := 0
-	for _, cs := range w.callSitesIn(fn) {
-		if cs.callee != "(*Encoder).writeInt" {
-			continue
-		}
-		n++
-		arg := f.term(cs.call.Call.Args[1])
-		// strip value-preserving conversion
-		inner := arg
-		for inner.K == TConv {
-			inner = inner.A
-		}
-		ok := false
-		for _, bk := range bounds {
-			if bk == inner.Key() {
-				ok = true
-			}
-		}
-		r.add(rule, fmt.Sprintf("(*Encoder).writeList · %s", cs.key()), w.instrPos(cs.call), ok,
-			fmt.Sprintf("count written = %s; element loop bound(s) = %v", arg.Key(), bounds))
-	}
-	r.floor(rule, n, 2)
-}
